@@ -300,6 +300,33 @@ def run(ctx):
                 o.violated(ap, st, f"proposal.{fld} is read from `{txt(st.value)}`: topology and motif id are cross-wired")
             else:
                 o.violated(ap, st, f"proposal.{fld} = `{txt(st.value)}` does not come from the old edge's annotation")
+        # the proposal carries its new edge and is recorded: rewire() adds exactly the recorded proposals and removes both old
+        # corners, so a proposal that is not recorded (or has no edge) is an edge lost
+        st_ne = stores.get("new_edge")
+        if st_ne is None and (ctor_opaque or not ctor_calls):
+            o.undecided("how the proposal's new edge is set was not recognised", ap)
+        elif st_ne is None:
+            o.violated(ap, ap.node, "the proposal's new edge is never set: rewire() has nothing to add for it while the old corner edges are removed")
+        else:
+            v_ = asc.resolve(st_ne.value)
+            if isinstance(v_, ast.Tuple) and len(v_.elts) == 2 and txt(v_.elts[0]) == pF and match(pat(f"self.get_other_vertex({pF}, {pNEW})"), v_.elts[1]) is not None:
+                o.holds(ap, st_ne, "proposal.new_edge <- (focal, other end of new_edge)")
+            elif isinstance(v_, ast.Tuple) and len(v_.elts) == 2 and pF in [txt(x) for x in v_.elts] and any(match(pat(f"self.get_other_vertex({pF}, {pNEW})"), x) is not None for x in v_.elts):
+                o.holds(ap, st_ne, "proposal.new_edge joins the focal vertex and the other end of new_edge")
+            elif txt(v_) == pNEW or isinstance(v_, ast.Tuple):
+                o.undecided(f"proposal.new_edge = `{txt(v_)[:60]}` not recognised as (focal, other end)", ap, st_ne)
+            else:
+                o.undecided(f"proposal.new_edge = `{txt(v_)[:60]}` not recognised", ap, st_ne)
+        recs = [n for n in astx.walk_fn(ap.node) if isinstance(n, ast.Call) and isinstance(n.func, ast.Attribute) and n.func.attr in ("append", "extend", "insert", "add")
+                and astx.self_attr(n.func.value) == "_proposal_edges"] + \
+               [n for n in astx.walk_fn(ap.node) if isinstance(n, ast.AugAssign) and astx.self_attr(n.target) == "_proposal_edges"]
+        if not recs:
+            o.violated(ap, ap.node, "append_proposal_edges never records the proposal in self._proposal_edges: rewire() removes the old corner edges but adds nothing for this one "
+                                    "(an edge is lost, degrees drop)")
+        elif any(astx.Parents(ap.node).stmt_of(r) in list(ap.node.body) for r in recs):
+            o.holds(ap, recs[0], "the proposal is recorded in self._proposal_edges unconditionally")
+        else:
+            o.undecided("the proposal is recorded only conditionally", ap, recs[0])
         # application in rewire
         app_st = {}
         for n in astx.walk_fn(rw.node):
@@ -326,12 +353,17 @@ def run(ctx):
         eqs = []
         identity = []
         unknown = []
+        joint_only = []
         ifs = [n for n in astx.walk_fn(su.node) if isinstance(n, ast.If)]
 
         def _alternatives(test, pol):
             # the ways in which `test` being `pol` can come about, each as (expr, polarity)
             while isinstance(test, ast.UnaryOp) and isinstance(test.op, ast.Not):
                 test, pol = test.operand, not pol
+            # `not all(C for ..)` holds when C fails for some element; `any(C for ..)` when C holds for some element
+            if isinstance(test, ast.Call) and txt(test.func) in ("all", "any") and len(test.args) == 1 and isinstance(test.args[0], (ast.GeneratorExp, ast.ListComp)) \
+                    and pol == (txt(test.func) == "any") and not any(g_.ifs for g_ in test.args[0].generators):
+                return _alternatives(test.args[0].elt, pol)
             if isinstance(test, ast.BoolOp) and ((isinstance(test.op, ast.Or) and pol) or (isinstance(test.op, ast.And) and not pol)):
                 out_ = []
                 for v_ in test.values:
@@ -376,6 +408,12 @@ def run(ctx):
                         o6.violated(su, r_, f"corners are rejected when `{t}` says they MATCH: only corners of different shape are paired, per-topology degrees are not preserved")
                 elif "len(" in t or ".keys()" in t or "MOTIF_IDS" in t:
                     pass
+                elif isinstance(d, ast.BoolOp) and all(isinstance(v_, ast.Compare) and len(v_.ops) == 1 and isinstance(v_.ops[0], (ast.Eq, ast.NotEq)) and isinstance(v_.left, ast.Name)
+                                                        and isinstance(v_.comparators[0], ast.Name) for v_ in d.values) \
+                        and ((isinstance(d.op, ast.Or) and not dp and all(isinstance(v_.ops[0], ast.NotEq) for v_ in d.values))
+                             or (isinstance(d.op, ast.And) and dp and all(isinstance(v_.ops[0], ast.Eq) for v_ in d.values))):
+                    # rejects only when ALL the listed pairs coincide at once: no single coincidence is rejected
+                    joint_only.append((d, [frozenset((txt(v_.left), txt(v_.comparators[0]))) for v_ in d.values]))
                 else:
                     unknown.append(t)
         for i in ifs:
@@ -393,6 +431,10 @@ def run(ctx):
             if by_identity:
                 o.violated(su, by_identity[0][1], f"`{txt(by_identity[0][1])}` compares vertex ids by object identity: equal ids held in different int objects (labels above 256, ids read "
                                                   "from different containers) pass the test, the shared vertex is not detected and the swap creates a self-loop")
+            elif missing and any(set(missing) <= set(ps_) for _, ps_ in joint_only):
+                d_ = [d for d, ps_ in joint_only if set(missing) <= set(ps_)][0]
+                o.violated(su, d_, f"`{txt(d_)}` rejects a pairing only when ALL of {sorted(sorted(p) for p in missing)} coincide at once: one shared vertex alone passes, and the swap "
+                                   "creates a self-loop (the two coincidence tests have to be alternatives, not a conjunction)")
             elif not missing:
                 o.holds(su, has[0], f"pairs tested for presence {sorted(sorted(p) for p in pairs)} are also rejected when their ends coincide")
             elif unknown:
@@ -405,8 +447,14 @@ def run(ctx):
         last = su.body[-1] if su.body else None
         if len(trues) == 1 and trues[0] is last:
             o6.holds(su, trues[0], f"`return True` only after all {len(ifs)} rejecting tests were passed")
-        elif len(trues) > 1 or (trues and trues[0] is not last):
-            o6.violated(su, trues[0], "`return True` is reachable without passing every rejecting test")
+        elif trues:
+            # an acceptance that is not the last statement skips exactly the rejecting tests written after it
+            skipped = [i for r_ in trues for i in ifs if id(i.test) in rejecting_tests and (i.lineno, i.col_offset) > (r_.lineno, r_.col_offset)]
+            if skipped:
+                o6.violated(su, trues[0], f"`return True` at line {trues[0].lineno} is reachable without passing the rejecting test `{txt(skipped[0].test)[:60]}` that follows it")
+            else:
+                conds_ = [txt(t_)[:50] for r_ in trues for t_, _p in rules.path_conditions(upar, r_)]
+                o6.undecided(f"`return True` is conditional ({conds_[:1]}): whether the condition contains every remaining test is not recognised", su, trues[0])
         else:
             o6.undecided("return structure of is_edge_choice_suitable not recognised", su)
         # rewire: mutation guarded by swap_condition, found through is_edge_choice_suitable
